@@ -37,7 +37,13 @@ def header_of(cmd, a0, a1, data):
   return struct.pack('<6I', w, a0, a1, len(data), sum(ord(c) for c in data) & 0xFFFFFFFF, w ^ 0xFFFFFFFF)
 
 
-def corrupt(kind, cmd, a0, a1, data):
+# command words that are no ADB command: arbitrary text, the ids of the file-sync sub-protocol (which travel
+# inside WRTE payloads, never as a command), a real id in lower case, the extremes
+UNKNOWN = [0x58585858] + [struct.unpack('<I', c)[0] for c in (b'DATA', b'STAT', b'DONE', b'FAIL', b'SEND', b'RECV', b'LIST',
+                                                                 b'DENT', b'okay')] + [0, 0xFFFFFFFF]
+
+
+def corrupt(kind, cmd, a0, a1, data, variant=0):
   w = WIRE[cmd]
   ln, sm, mg = len(data), sum(ord(c) for c in data) & 0xFFFFFFFF, w ^ 0xFFFFFFFF
   pay = data
@@ -50,7 +56,7 @@ def corrupt(kind, cmd, a0, a1, data):
   elif kind == 'sum-1':
     sm = (sm - 1) & 0xFFFFFFFF
   elif kind == 'cmd-unknown':
-    w = 0x58585858
+    w = UNKNOWN[variant % len(UNKNOWN)]
   elif kind == 'magic-wrong':
     mg ^= 0x0F0F0F0F
   elif kind == 'payload-short':
@@ -71,6 +77,8 @@ def part1(rows, seed, big):
   rng = random.Random(seed)
   bad = []
   n = 0
+  import importlib
+  importlib.import_module('openhtf.plugs.usb.filesync_service')     # as the package does through adb_device
   for r in rows:
     if r['c'] == 'len-1' and r['paylen'] == 0:
       continue
@@ -97,7 +105,7 @@ def part1(rows, seed, big):
         ad2.write_message(msg, to.PolledTimeout.from_millis(1000))
         if t2.tx[2:] != [header_of(r['cmd'], a1, a0, data + 'z'), data + 'z']:
           bad.append(('a message object written again after its fields changed goes out with a stale header', det))
-        t.rx = corrupt(r['c'], r['cmd'], a0, a1, data)
+        t.rx = corrupt(r['c'], r['cmd'], a0, a1, data, variant=n)
         try:
           m = ad.read_message(to.PolledTimeout.from_millis(1000))
           got = ('deliver', (m.command, m.arg0, m.arg1, m.data))
@@ -116,7 +124,7 @@ def part1(rows, seed, big):
           # frame is rejected there as well, a valid frame of another command is passed over
           t3 = usbfake.ChunkTransport()
           ad3 = am.AdbTransportAdapter(t3)
-          chunks = corrupt(r['c'], r['cmd'], a0, a1, data)
+          chunks = corrupt(r['c'], r['cmd'], a0, a1, data, variant=n + 5)
           if len(chunks[0]) == 24 and struct.unpack('<6I', chunks[0])[3] == 0:
             chunks = chunks[:1]           # a header announcing no payload is followed by the next frame
           t3.rx = chunks + [header_of('CNXN', 7, 8, 'ok'), 'ok']
